@@ -72,6 +72,54 @@ PROPS["C13"] = {
     "assumptions": ["sync.Once and atomic int32 behave sequentially within one request (single goroutine)"],
 }
 
+
+def _conc_plain_extra(ctx):
+    """C07 under load: the ordinary (non -race) harness serves the C05 request mix from N goroutines on fresh
+    instances and compares every response with the serial outcome of the same request, a few seeds in a row.
+    A response that differs, or a process the Go runtime aborts (concurrent map access, nil dereference in a
+    half-built cache), is a failing history: serving is no longer total / a function of routes and request."""
+    import json, os, subprocess
+    workdir, out_paths = ctx["workdir"], []
+    cov = ctx["ev"]["coverage"]
+    rounds = 8 if ctx["tier"] == "quick" else 40
+    served = 0
+    for k in range(rounds):
+        outdir = os.path.join(workdir, "conc%d" % k)
+        os.makedirs(outdir, exist_ok=True)
+        seed = ctx["seed"] * 100 + k
+        try:
+            p = subprocess.run([ctx["HARNESS"], "conc", str(seed), "quick", outdir], env=ctx["GOENV"],
+                               stdout=subprocess.PIPE, stderr=subprocess.PIPE, text=True, timeout=600)
+            rc, so, se = p.returncode, p.stdout, p.stderr
+        except subprocess.TimeoutExpired:
+            rc, so, se = -9, "", "hang: the concurrent run did not finish within 600 s"
+        summary = {}
+        for line in so.splitlines():
+            if line.startswith("{"):
+                try:
+                    summary = json.loads(line)
+                except ValueError:
+                    pass
+        served += summary.get("served_concurrently", 0)
+        if rc == 0:
+            continue
+        div = {}
+        try:
+            div = json.load(open(os.path.join(outdir, "divergence.json")))
+        except Exception:
+            pass
+        out_paths.append(ctx["write_replay"](ctx["pid"], "concurrent", {
+            "what": "requests served from several goroutines on one instance: a response differs from the serial outcome of the "
+                    "same request, or the Go runtime aborted the process",
+            "divergence": div, "exit_status": rc, "stderr_head": se[:6000].split("\n"), "summary": summary, "seed": seed,
+            "how_to_replay": "build/harness conc %d quick <dir>   (a goroutine schedule cannot be replayed deterministically: "
+                             "the replay is the program and the seed; it failed in round %d of %d)" % (seed, k + 1, rounds),
+            "ops": ["NEW noop"]}))
+        break
+    cov["concurrent_rounds"] = {"rounds": rounds, "served_concurrently": served,
+                                "cmd": "build/harness conc <seed*100+k> quick <dir>  (no race detector: responses vs serial outcome, runtime aborts)"}
+    return out_paths
+
 # ---------------------------------------------------------------------------------- C14
 def _c14_nontrivial(sess, real):
     # at least one request of the session got a status line out through the return handler
@@ -858,6 +906,7 @@ _router_entry("C07",
     lambda op, r, m, n: True,
     "case = (route set, request); every distinct case counts (the quantifier is 'any request whatsoever'); distribution shows raw-byte paths and odd methods")
 PROPS["C07"]["props_modules"] = ["Flamego.Props.C07", "Flamego.Props.C07App", "Flamego.Proofs.App"]
+PROPS["C07"]["extra_check"] = _conc_plain_extra
 PROPS["C07"]["technique"] += ("; plus an end-to-end model of one request through a whole application (Model/App: Before hooks, "
     "router, createContext, handler chain) with theorems tying C01/C03/C10 together at Flame.ServeHTTP, and `NEW app` sessions "
     "against a real flamego instance")
